@@ -164,30 +164,60 @@ def factory_rules(ctx, R, PR):
         if not missing:
             ctx.holds("F3", "constant tag map covers all action tag bindings")
     else:
-        src = norm(helper.node)
-        loops = [lp for lp in walk_no_nested(helper.node) if isinstance(lp, ast.For) and "args_definition" in norm(lp.iter)]
-        covers_ext = "'extension'" in src or '"extension"' in src
-        covers_vals = "extension_values" in src
-        reqs = [c for c in walk_no_nested(helper.node) if isinstance(c, ast.Call) and call_name(c) == "require"]
-        if loops and covers_ext and covers_vals and len(reqs) >= 2:
-            ctx.holds("F3", "%s walks the command's args_definition and requires both slot-level and value-level extensions" % helper.qualname)
-        else:
-            ctx.violation("F3", helper, "derivation-incomplete", "%s does not cover both `extension` and `extension_values` of the command's "
-                          "definition" % helper.qualname, node=helper.node,
-                          witness="a tag bound through the uncovered key (e.g. :seconds or :regex) is rendered without its require")
-        cfgh = ctx.cfg(helper)
-        tagp = helper.params[2] if len(helper.params) > 2 else None
-        for rc in reqs:
-            nodes = cfgh.node_containing(rc)
+        # finite-domain evaluation: for every command of the table and every tag of it that is bound to an extension, the derivation
+        # helper, given that command's definition and that tag, must call require() with that extension
+        from sa import fd
+        own = helper.params[1:] if helper.cls is not None else helper.params
+        if len(own) < 2:
+            raise AnalysisError("F3", "%s does not take (command, tag)" % helper.qualname)
+        cmdp, tagp = own[0], own[1]
 
-            def tag_matches(fc):
-                e, pol = fact_atom(fc)
-                cp = cmp_parts(e)
-                return bool(cp and cp[1] == "In" and pol is True and norm(cp[0]) == tagp)
-            if nodes and all(cfgh.guarded(x, tag_matches) for x in nodes):
-                ctx.holds("F3", "%s only for the tag in hand" % norm(rc)[:60])
-            else:
-                ctx.violation("F3", helper, "derivation-unconditional", "%s is executed whatever the tag is" % norm(rc)[:60], node=rc)
+        def oracle(interp, e, name, recv, args, kw, st):
+            if name in ("self.require", "require") and args:
+                return [(fd.Const(None), ("require", args[0]))]
+            if isinstance(e.func, ast.Name) and e.func.id in fmod.funcs:
+                return fd.Inline(fmod.funcs[e.func.id])
+            if name and name.startswith("self.") and name[5:] in R.m and R.m[name[5:]] is not helper:
+                return fd.Inline(R.m[name[5:]])
+            return None
+        nb = 0
+        missing = []
+        for e in sorted(by_name.values(), key=lambda x: x["name"]):
+            binds = tag_bindings(e)
+            for t, x in sorted(binds.items()):
+                nb += 1
+                it = fd.Interp(helper.node, R.cls.name, oracle, loop_unroll=max(8, len(e["args_definition"] or []) + 1), max_depth=3)
+                env = {cmdp: fd.Unknown("cmd"), "%s.args_definition" % cmdp: fd.Const(e["args_definition"]), tagp: fd.Const(t)}
+                for k_ in ("args_using_extensions",):
+                    v_ = R.cls.attrs.get(k_)
+                    cv_ = const_value(prog, helper, v_) if v_ is not None else TOP
+                    if cv_ is not TOP:
+                        env["%s.%s" % (helper.params[0], k_)] = fd.Const(cv_)
+                try:
+                    paths = it.run(env)
+                except fd.TooManyPaths:
+                    raise AnalysisError("F3", "path explosion in %s for %s %s" % (helper.qualname, e["name"], t))
+                for p_ in paths:
+                    if p_.kind == "raise":
+                        missing.append((e["name"], t, x, "raises %s" % p_.value))
+                        continue
+                    got = [ev[1].v for ev in p_.events if ev[0] == "require" and isinstance(ev[1], fd.Const)]
+                    unk = [ev for ev in p_.events if ev[0] == "require" and not isinstance(ev[1], fd.Const)]
+                    if x not in got and not unk:
+                        missing.append((e["name"], t, x, "requires %s" % (got or "nothing")))
+        ctx.need("F3", "(command, extension-bound tag) pairs evaluated", nb, 10)
+        if missing:
+            seen_ = set()
+            for cn_, t, x, why in missing:
+                if (t, x) in seen_:
+                    continue
+                seen_.add((t, x))
+                ctx.violation("F3", helper, "derivation-misses:%s" % t, "%s, given the definition of %s and the tag %s, %s; the tag needs %s"
+                              % (helper.qualname, cn_, t, why, x), node=helper.node,
+                              witness="a filter using %s is rendered without `require \"%s\"`: the script is rejected" % (t, x))
+        else:
+            ctx.holds("F3", "%s requires the bound extension for each of the %d (command, tag) pairs of the command table (evaluated over "
+                      "the table)" % (helper.qualname, nb))
 
     # ---- F4 -----------------------------------------------------------------------
     ctx.rule("F4", "every unchecked tag argument is preceded by the extension derivation for the same command and tag")
